@@ -147,6 +147,34 @@ theorem estimateBlackPoint_twoPeaks (buckets : List Nat) (h : TwoPeaks buckets) 
   rw [if_neg hcontrast]
   exact ⟨_, rfl⟩
 
+/-- a histogram whose only non-empty bucket (if any) is bucket 0: both peaks are bucket 0, the contrast test fails -/
+theorem estimateBlackPoint_onePeak (buckets : List Nat) (hlen : buckets.length = 32)
+    (h : ∀ x c, buckets[x]? = some c → 0 < c → x = 0) :
+    estimateBlackPoint buckets = .error .notFound := by
+  unfold estimateBlackPoint
+  simp only
+  generalize hfirst : argmaxStrict (0, 0) ((indexed buckets).map (fun (x, c) => (x, (c : Int)))) = first
+  generalize hsecond : argmaxStrict (0, 0)
+    ((indexed buckets).map (fun (x, c) => (x, ((c * sqDist x first.1 : Nat) : Int)))) = second
+  have hf : first.1 = 0 := by
+    rcases argmaxStrict_start_or_better ((indexed buckets).map (fun (x, c) => (x, (c : Int)))) (0, 0) with e | ⟨e1, e2⟩
+    · rw [hfirst] at e; rw [e]
+    · rw [hfirst] at e1 e2
+      obtain ⟨⟨x, c⟩, hm, he⟩ := List.mem_map.mp e1
+      rw [← he] at e2 ⊢
+      exact h x c ((mem_indexed buckets x c).mp hm) (by simp only at e2; omega)
+  have hs : second.1 = 0 := by
+    rcases argmaxStrict_start_or_better ((indexed buckets).map (fun (x, c) => (x, ((c * sqDist x first.1 : Nat) : Int)))) (0, 0) with e | ⟨e1, e2⟩
+    · rw [hsecond] at e; rw [e]
+    · rw [hsecond] at e1 e2
+      obtain ⟨⟨x, c⟩, hm, he⟩ := List.mem_map.mp e1
+      rw [← he] at e2 ⊢
+      have hpos : 0 < c * sqDist x first.1 := by simp only at e2; omega
+      exact h x c ((mem_indexed buckets x c).mp hm) (Nat.pos_of_mul_pos_right hpos)
+  have hc : max first.1 second.1 - min first.1 second.1 ≤ buckets.length / 16 := by
+    rw [hf, hs, hlen]; decide
+  rw [if_pos hc]
+
 /-! ## the histogram of bilevel samples with a white one -/
 
 theorem histogram_get (ps : List Nat) (x : Nat) (hx : x < 32) :
@@ -172,10 +200,24 @@ theorem histogram_twoPeaks (ps : List Nat) (hbi : ∀ p ∈ ps, p = 0 ∨ p = 25
   · refine ⟨_, histogram_get ps 31 (by decide), ?_⟩
     exact List.countP_pos_iff.mpr ⟨255, hw, by simp [bucketOf]⟩
 
+theorem histogram_onePeak (ps : List Nat) (hb : ∀ p ∈ ps, p = 0) :
+    ∀ x c, (histogram ps)[x]? = some c → 0 < c → x = 0 := by
+  intro x c hc hpos
+  have hx : x < 32 := by
+    rcases Nat.lt_or_ge x 32 with h | h
+    · exact h
+    · rw [List.getElem?_eq_none (by simp [histogram, LUMINANCE_BUCKETS]; omega)] at hc; cases hc
+  rw [histogram_get ps x hx] at hc
+  cases hc
+  obtain ⟨p, hp, hbk⟩ := List.countP_pos_iff.mp hpos
+  rw [hb p hp] at hbk
+  simp [bucketOf] at hbk
+  omega
+
 /-! ## the samples -/
 
 theorem samples_spec (lum : Array Nat) (w h : Nat) (ps : List Nat) (hs : samples lum w h = .ok ps) :
-    (∀ p ∈ ps, ∃ i : Nat, lum[i]? = some p) ∧
+    (∀ p ∈ ps, ∃ k x : Nat, k ∈ [1, 2, 3, 4] ∧ w / 5 ≤ x ∧ x < w * 4 / 5 ∧ lum[(h * k / 5) * w + x]? = some p) ∧
     (∀ (k x p : Nat), k ∈ [1, 2, 3, 4] → w / 5 ≤ x → x < w * 4 / 5 → lum[(h * k / 5) * w + x]? = some p → p ∈ ps) := by
   unfold samples at hs
   split at hs
@@ -185,10 +227,21 @@ theorem samples_spec (lum : Array Nat) (w h : Nat) (ps : List Nat) (hs : samples
     refine ⟨?_, ?_⟩
     · intro p hp
       obtain ⟨row, hrow, hpr⟩ := List.mem_flatten.mp hp
-      obtain ⟨k, _, hk⟩ := mapME_mem_right _ _ _ hrows row hrow
+      obtain ⟨k, hkm, hk⟩ := mapME_mem_right _ _ _ hrows row hrow
       unfold sampleRowAt sampleRow at hk
-      obtain ⟨x, _, hx⟩ := mapME_mem_right _ _ _ hk p hpr
-      exact ⟨_, rd_inv lum _ p hx⟩
+      obtain ⟨x, hxm, hx⟩ := mapME_mem_right _ _ _ hk p hpr
+      have hx2 : x < w * 4 / 5 := List.mem_range.mp (List.mem_of_mem_drop hxm)
+      have hx1 : w / 5 ≤ x := by
+        obtain ⟨i, hi⟩ := List.mem_iff_getElem?.mp hxm
+        rw [List.getElem?_drop] at hi
+        have hlt : w / 5 + i < w * 4 / 5 := by
+          rcases Nat.lt_or_ge (w / 5 + i) (w * 4 / 5) with h' | h'
+          · exact h'
+          · rw [List.getElem?_eq_none (by simpa using h')] at hi; cases hi
+        rw [List.getElem?_range hlt] at hi
+        cases hi
+        omega
+      exact ⟨k, x, hkm, hx1, hx2, rd_inv lum _ p hx⟩
     · intro k x p hk h1 h2 hl
       obtain ⟨row, hrow, hkr⟩ := mapME_mem_left _ _ _ hrows k hk
       unfold sampleRowAt sampleRow at hkr
@@ -217,8 +270,8 @@ theorem global_bilevel_exact_of_white_sample (lum : Array Nat) (w h : Nat) (hw :
     obtain ⟨k, x, hk, h1, h2, hl⟩ := hwhite
     have hmem : 255 ∈ ps := s2 k x 255 hk h1 h2 hl
     have hbi' : ∀ p ∈ ps, p = 0 ∨ p = 255 := fun p hp => by
-      obtain ⟨i, hi⟩ := s1 p hp
-      exact hbi i p hi
+      obtain ⟨k', x', _, _, _, hi⟩ := s1 p hp
+      exact hbi _ p hi
     obtain ⟨bp, hbp⟩ := estimateBlackPoint_twoPeaks _ (histogram_twoPeaks ps hbi' hmem)
     obtain ⟨sets, hsets, _⟩ := scanRect_spec lum w h 0 0 w h (fun p => decide (p < bp)) hsz (by omega) (by omega)
     unfold globalSets at hnf
@@ -226,6 +279,25 @@ theorem global_bilevel_exact_of_white_sample (lum : Array Nat) (w h : Nat) (hw :
     simp only [hn, if_false, hps, hbp, hsets] at hnf
     cases hnf
   · exact hex
+
+/-- **… and it needs it**: with no white pixel among the sampled ones (also when nothing is sampled, `w ≤ 1`) the
+    global method answers NotFound on a pure black/white image -/
+theorem global_bilevel_notfound_of_no_white_sample (lum : Array Nat) (w h : Nat) (hw : 1 ≤ w) (hh : 1 ≤ h)
+    (hsz : lum.size = w * h) (hbi : Properties.C17.Bilevel lum)
+    (hno : ¬ ∃ k x, k ∈ [1, 2, 3, 4] ∧ w / 5 ≤ x ∧ x < w * 4 / 5 ∧ lum[(h * k / 5) * w + x]? = some 255) :
+    globalSets lum w h = .error .notFound := by
+  obtain ⟨ps, hps⟩ := samples_ok lum w h hsz hh
+  obtain ⟨s1, _⟩ := samples_spec lum w h ps hps
+  have hb : ∀ p ∈ ps, p = 0 := by
+    intro p hp
+    obtain ⟨k, x, hk, h1, h2, hl⟩ := s1 p hp
+    rcases hbi _ p hl with rfl | rfl
+    · rfl
+    · exact absurd ⟨k, x, hk, h1, h2, hl⟩ hno
+  have hbp := estimateBlackPoint_onePeak (histogram ps) (by simp [histogram, LUMINANCE_BUCKETS]) (histogram_onePeak ps hb)
+  unfold globalSets
+  have hn : ¬ (w < 1 ∨ h < 1) := by omega
+  simp only [hn, if_false, hps, hbp]
 
 end Gzx.Binarizer
 
@@ -270,5 +342,41 @@ theorem blackMatrix_white (img : Render.Image) (hw : 1 ≤ img.w) (hh : 1 ≤ im
   obtain ⟨bm, hb, hs⟩ := blackMatrixOfRows_white img.w.toNat img.h.toNat img.rows (image_rowsOK img) (by omega) (by omega)
     ⟨k, x, hk, h1, h2, by rw [image_rows_get img x _ (by omega) hrow, hpx]⟩
   exact ⟨bm, hb, sameAsImage_of bm img (by omega) (by omega) hs⟩
+
+/-- the converse: below 40 pixels on an axis and with no white pixel among the sampled ones the bitmap yields NotFound -/
+theorem blackMatrixOfRows_no_white (w h : Nat) (rows : List (List Bool)) (hr : RowsOK w h rows) (hw : 1 ≤ w) (hh : 1 ≤ h)
+    (hsmall : w < 40 ∨ h < 40) (hno : ¬ WhiteSampleRows w h rows) :
+    blackMatrixOfRows w h rows = .error .notFound := by
+  unfold blackMatrixOfRows
+  rw [Properties.C17.hybrid_small_is_global _ w h hsmall,
+    global_bilevel_notfound_of_no_white_sample (lumOfRows rows) w h hw hh (lumOfRows_size w h rows hr)
+      (lumOfRows_bilevel rows) ?_]
+  rintro ⟨k, x, hk, h1, h2, hl⟩
+  apply hno
+  have hk4 : k ≤ 4 := by simp only [List.mem_cons, List.mem_nil_iff, or_false] at hk; omega
+  have hrow : h * k / 5 < h := by
+    have : h * k ≤ h * 4 := Nat.mul_le_mul_left h hk4
+    omega
+  rw [lumOfRows_get w h rows hr x (h * k / 5) (by omega) hrow] at hl
+  refine ⟨k, x, hk, h1, h2, ?_⟩
+  cases hb : (rows[h * k / 5]?).bind (·[x]?) with
+  | none => rw [hb] at hl; cases hl
+  | some b =>
+    rw [hb] at hl
+    cases b with
+    | false => rfl
+    | true => simp [grayAt] at hl
+
+theorem blackMatrix_no_white (img : Render.Image) (hw : 1 ≤ img.w) (hh : 1 ≤ img.h)
+    (hsmall : img.w < 40 ∨ img.h < 40) (hno : ¬ WhiteSample img) : blackMatrix img = .error .notFound := by
+  refine blackMatrixOfRows_no_white img.w.toNat img.h.toNat img.rows (image_rowsOK img) (by omega) (by omega) (by omega) ?_
+  rintro ⟨k, x, hk, h1, h2, hpx⟩
+  apply hno
+  have hk4 : k ≤ 4 := by simp only [List.mem_cons, List.mem_nil_iff, or_false] at hk; omega
+  have hrow : img.h.toNat * k / 5 < img.h.toNat := by
+    have : img.h.toNat * k ≤ img.h.toNat * 4 := Nat.mul_le_mul_left _ hk4
+    omega
+  rw [image_rows_get img x _ (by omega) hrow] at hpx
+  exact ⟨k, x, hk, h1, h2, Option.some.inj hpx⟩
 
 end Gzx.ImagePath
